@@ -26,6 +26,11 @@ Definition BQ : ascii := "`".
 Definition LBR : ascii := "{".
 Definition RBR : ascii := "}".
 Definition PCT : ascii := "%".
+(* the UTF-8 encoding of U+FEFF (byte order mark) *)
+Definition EF : ascii := "239".
+Definition BB : ascii := "187".
+Definition BF : ascii := "191".
+Definition BOM : bytes := [EF; BB; BF].
 
 Inductive form := Str | Raw | IStr | IRaw.   (* "..."  `...`  $"..."  $`...` *)
 
@@ -35,11 +40,16 @@ Definition close (f : form) : ascii := if is_raw f then BQ else DQ.
 
 (** ---------------------------------------------------------------- layer 1: the tokenizer *)
 
+(** what both scanners write for a byte order mark: backslash u f e f f (Go rejects a raw byte order
+    mark anywhere but at the start of a source file) *)
+Definition BOM_ESC : bytes := [BS; "u"; "f"; "e"; "f"; "f"].
+
 (** scanStringLiteralToken, from the byte after the opening quote: the token's stringVal and the
     rest of the buffer after the closing quote.  [None] = panic ("unclosed string literal",
     "escape just before EOF"). Escapes are kept verbatim; a RAW newline is written as the two bytes
     backslash n (the value is emitted as a Go interpreted string literal, which cannot contain a raw
-    newline) — the same re-escaping the raw-string scanner does. *)
+    newline) — the same re-escaping the raw-string scanner does; the three bytes of a byte order mark
+    are written as the escape backslash ufeff (tested after quote, backslash and newline, as in the code). *)
 Fixpoint scan_string (s : bytes) : option (bytes * bytes) :=
   match s with
   | [] => None
@@ -60,9 +70,20 @@ Fixpoint scan_string (s : bytes) : option (bytes * bytes) :=
       | None => None
       end
     else
-      match scan_string r with
-      | Some (v, rest) => Some (c :: v, rest)
-      | None => None
+      let plain := match scan_string r with
+                   | Some (v, rest) => Some (c :: v, rest)
+                   | None => None
+                   end in
+      (* isStringAt(buf, pos+i, "\xef\xbb\xbf"): the three bytes become the escape \ufeff *)
+      match r with
+      | c2 :: c3 :: r' =>
+        if Ascii.eqb c EF && Ascii.eqb c2 BB && Ascii.eqb c3 BF then
+          match scan_string r' with
+          | Some (v, rest) => Some (BOM_ESC ++ v, rest)
+          | None => None
+          end
+        else plain
+      | _ => plain
       end
   end.
 
@@ -103,9 +124,19 @@ Fixpoint scan_raw (s : bytes) : option (bytes * bytes) :=
   | c :: r =>
     if Ascii.eqb c BQ then Some ([], r)
     else
-      match scan_raw r with
-      | Some (v, rest) => Some (esc_raw c ++ v, rest)
-      | None => None
+      let plain := match scan_raw r with
+                   | Some (v, rest) => Some (esc_raw c ++ v, rest)
+                   | None => None
+                   end in
+      match r with
+      | c2 :: c3 :: r' =>
+        if Ascii.eqb c EF && Ascii.eqb c2 BB && Ascii.eqb c3 BF then
+          match scan_raw r' with
+          | Some (v, rest) => Some (BOM_ESC ++ v, rest)
+          | None => None
+          end
+        else plain
+      | _ => plain
       end
   end.
 
@@ -190,6 +221,16 @@ Inductive uq := UqOk (v : bytes) | UqErr | UqUnmodelled.
 Definition uq_cons (c : ascii) (r : uq) : uq :=
   match r with UqOk v => UqOk (c :: v) | x => x end.
 
+Definition uq_app (v : bytes) (r : uq) : uq :=
+  match r with UqOk w => UqOk (v ++ w) | x => x end.
+
+(** UTF-8 encoding of a code point of the basic multilingual plane (what \uXXXX denotes) *)
+Definition utf8_bmp (n : N) : option bytes :=
+  if (n <? 128)%N then Some [ascii_of_N n]
+  else if (n <? 2048)%N then Some [ascii_of_N (192 + n / 64); ascii_of_N (128 + n mod 64)]
+  else if (55296 <=? n)%N && (n <=? 57343)%N then None
+  else Some [ascii_of_N (224 + n / 4096); ascii_of_N (128 + (n / 64) mod 64); ascii_of_N (128 + n mod 64)].
+
 Definition hexval (c : ascii) : option N :=
   let n := N_of_ascii c in
   if (48 <=? n)%N && (n <=? 57)%N then Some (n - 48)%N
@@ -205,8 +246,10 @@ Definition octval (c : ascii) : option N :=
     [UqErr] = the Go compiler rejects the file: a raw newline ("newline in string"), a bare double
     quote (the literal ends early and the rest of the line is garbage), NUL ("illegal character NUL"),
     an unknown escape (including \' which is only legal in rune literals), a malformed \x / octal escape.
-    \u and \U are legal but not modelled ([UqUnmodelled]); bytes >= 0x80 pass through (Go additionally
-    requires the file to be valid UTF-8, which is not modelled). *)
+    \uXXXX denotes the UTF-8 encoding of the code point; \U is legal but not modelled
+    ([UqUnmodelled]); bytes >= 0x80 pass through (Go additionally requires the file to be valid UTF-8
+    and free of byte order marks after its start, which is not modelled: that is why a pre-repair
+    refutation for the byte order mark is not stated). *)
 Fixpoint go_unquote (s : bytes) : uq :=
   match s with
   | [] => UqOk []
@@ -233,7 +276,20 @@ Fixpoint go_unquote (s : bytes) : uq :=
             end
           | _ => UqErr
           end
-        else if Ascii.eqb e "u" || Ascii.eqb e "U" then UqUnmodelled
+        else if Ascii.eqb e "u" then
+          match r1 with
+          | h1 :: h2 :: h3 :: h4 :: r2 =>
+            match hexval h1, hexval h2, hexval h3, hexval h4 with
+            | Some a1, Some a2, Some a3, Some a4 =>
+              match utf8_bmp (4096 * a1 + 256 * a2 + 16 * a3 + a4) with
+              | Some enc => uq_app enc (go_unquote r2)
+              | None => UqErr            (* a surrogate half: "escape is invalid Unicode code point" *)
+              end
+            | _, _, _, _ => UqErr
+            end
+          | _ => UqErr
+          end
+        else if Ascii.eqb e "U" then UqUnmodelled
         else
           match octval e with
           | Some o1 =>
@@ -398,7 +454,8 @@ Inductive piece :=
 | PChar (c : ascii)            (* an ordinary character: denotes itself *)
 | PEsc (c : ascii)             (* backslash followed by n, t, backslash or double quote (c = that letter) *)
 | PBrace (c : ascii)           (* \{ \}  in $"..." *)
-| PHole (name : bytes).        (* {name} in $"..." and $`...` *)
+| PHole (name : bytes)         (* {name} in $"..." and $`...` *)
+| PBom.                        (* the three bytes EF BB BF of U+FEFF: an ordinary character, denotes itself *)
 
 Definition esc_meaning (c : ascii) : ascii :=
   if Ascii.eqb c "n" then LF else if Ascii.eqb c "t" then TAB else c.
@@ -409,6 +466,7 @@ Definition spell1 (p : piece) : bytes :=
   | PEsc c => [BS; c]
   | PBrace c => [BS; c]
   | PHole n => LBR :: n ++ [RBR]
+  | PBom => BOM
   end.
 Definition spell (ps : list piece) : bytes := flat_map spell1 ps.
 
@@ -421,6 +479,7 @@ Definition meaning1 (e : env) (p : piece) : bytes :=
   | PEsc c => [esc_meaning c]
   | PBrace c => [c]
   | PHole n => hole_text e n
+  | PBom => BOM
   end.
 Definition meaning (e : env) (ps : list piece) : bytes := flat_map (meaning1 e) ps.
 
@@ -457,6 +516,20 @@ Definition ok_piece (f : form) (e : env) (p : piece) : bool :=
   | PBrace c => match f with IStr => Ascii.eqb c LBR || Ascii.eqb c RBR | _ => false end
   | PHole n =>
     is_interp f && valid_ident n && match lookup e n with Some _ => true | None => false end
+  | PBom => true
+  end.
+
+(** The three bytes of a byte order mark are the piece [PBom], never three [PChar]s (the scanners
+    treat the sequence as a unit): a piece list must not split it. *)
+Fixpoint nosplit (ps : list piece) : bool :=
+  match ps with
+  | [] => true
+  | p :: tl =>
+    match p, tl with
+    | PChar c1, PChar c2 :: PChar c3 :: _ =>
+      negb (Ascii.eqb c1 EF && Ascii.eqb c2 BB && Ascii.eqb c3 BF)
+    | _, _ => true
+    end && nosplit tl
   end.
 
 (** Lexer of bodies into pieces (so that [denote] is a function of the body's bytes).
@@ -489,9 +562,19 @@ Fixpoint lex (f : form) (s : bytes) (hole : option bytes) : option (list piece) 
         end
       else if is_interp f && Ascii.eqb c LBR then lex f r (Some [])
       else
-        match lex f r None with
-        | Some ps => Some (PChar c :: ps)
-        | None => None
+        let plain := match lex f r None with
+                     | Some ps => Some (PChar c :: ps)
+                     | None => None
+                     end in
+        match r with
+        | c2 :: c3 :: r' =>
+          if Ascii.eqb c EF && Ascii.eqb c2 BB && Ascii.eqb c3 BF then
+            match lex f r' None with
+            | Some ps => Some (PBom :: ps)
+            | None => None
+            end
+          else plain
+        | _ => plain
         end
     end
   end.
@@ -499,13 +582,13 @@ Fixpoint lex (f : form) (s : bytes) (hole : option bytes) : option (list piece) 
 (** well-formed body: lexes into admissible pieces *)
 Definition wf (f : form) (e : env) (body : bytes) : bool :=
   match lex f body None with
-  | Some ps => forallb (ok_piece f e) ps
+  | Some ps => forallb (ok_piece f e) ps && nosplit ps
   | None => false
   end.
 
 (** the denotation of a body; [None] outside the property's grammar *)
 Definition denote (f : form) (e : env) (body : bytes) : option bytes :=
   match lex f body None with
-  | Some ps => if forallb (ok_piece f e) ps then Some (meaning e ps) else None
+  | Some ps => if forallb (ok_piece f e) ps && nosplit ps then Some (meaning e ps) else None
   | None => None
   end.
